@@ -107,6 +107,18 @@ type c29Monitor struct {
 	staticDenied  int
 	maxKinds      int
 	classes       map[string]int
+
+	// multi-transaction histories: value of a slot at the start of the block, the
+	// keys the top-level frame changed, and two history-shape counters (statistics
+	// only): failed frames that had to restore a slot which an enclosing frame of the
+	// same transaction had already changed, and among those the ones whose restored
+	// value equals the block-start value although an earlier transaction of the block
+	// had changed the slot.
+	blockStart     func(common.Address, common.Hash) common.Hash
+	topKeys        []c29Key
+	topBefore      map[c29Key]common.Hash
+	restoredOuter  int
+	restoredToOrig int
 }
 
 const c29MaxTrackedFrames = 3000
@@ -273,6 +285,9 @@ func (m *c29Monitor) onExit(depth int, output []byte, gasUsed uint64, err error,
 	if !f.tracked {
 		return
 	}
+	if len(m.frames) == 0 {
+		m.topKeys, m.topBefore = f.order, f.before
+	}
 	failed := err != nil && reverted
 	kinds := map[c29Kind]bool{}
 	for _, k := range f.order {
@@ -291,6 +306,28 @@ func (m *c29Monitor) onExit(depth int, output []byte, gasUsed uint64, err error,
 		m.classes[fmt.Sprintf("failed:%s:%s", ep.OpName(f.typ), evmx.ErrClass(err))]++
 		if len(kinds) > 0 {
 			m.classes["failed-with-effects:"+ep.OpName(f.typ)]++
+		}
+		if len(m.frames) > 0 && m.frames[0].tracked {
+			outer, orig := false, false
+			for _, k := range f.order {
+				if k.kind != kStorage {
+					continue
+				}
+				// The top-level frame learnt the slot's value at the start of the transaction
+				// when the slot was first changed.
+				if txStart, ok := m.frames[0].before[k]; ok && txStart != f.before[k] {
+					outer = true
+					if m.blockStart != nil && m.blockStart(k.addr, k.slot) == f.before[k] {
+						orig = true
+					}
+				}
+			}
+			if outer {
+				m.restoredOuter++
+			}
+			if orig {
+				m.restoredToOrig++
+			}
 		}
 	}
 	if !failed && !f.static {
@@ -394,9 +431,16 @@ func (s *c29State) AddLog(l *types.Log) {
 // runtime.NewEnv does, except that the state handed to it is the wrapper.
 func c29Run(cs *c27Case, base *state.StateDB) (res c27Result, mon *c29Monitor) {
 	db := base.Copy()
+	mon = &c29Monitor{db: db, rules: evmx.Rules(cs.fork), classes: map[string]int{}}
+	return c29Exec(cs, db, nil, mon), mon
+}
+
+// c29Exec executes one transaction-like call (cs.gas/resv/value/input; creation of
+// contract 0's code if cs.create, else a call to *to, default contract 0) directly on
+// db, observed by mon. Prepare is called first, as the state transition does.
+func c29Exec(cs *c27Case, db *state.StateDB, to *common.Address, mon *c29Monitor) (res c27Result) {
 	res.db = db
 	rules := evmx.Rules(cs.fork)
-	mon = &c29Monitor{db: db, rules: rules, classes: map[string]int{}}
 	defer func() {
 		if r := recover(); r != nil {
 			res.panic = fmt.Sprintf("%v\n%s", r, debug.Stack())
@@ -417,11 +461,14 @@ func c29Run(cs *c27Case, base *state.StateDB) (res c27Result, mon *c29Monitor) {
 		db.Prepare(rules, cfg.Origin, cfg.Coinbase, nil, vm.ActivePrecompiles(rules), nil)
 		res.ret, res.addr, res.gas, res.err = env.Create(cfg.Origin, cs.world.Contracts[0].Code, budget, cs.value)
 	} else {
-		to := evmx.Addr(cs.world.Contracts[0].Addr)
-		db.Prepare(rules, cfg.Origin, cfg.Coinbase, &to, vm.ActivePrecompiles(rules), nil)
-		res.ret, res.gas, res.err = env.Call(cfg.Origin, to, cs.input, budget, cs.value)
+		dst := evmx.Addr(cs.world.Contracts[0].Addr)
+		if to != nil {
+			dst = *to
+		}
+		db.Prepare(rules, cfg.Origin, cfg.Coinbase, &dst, vm.ActivePrecompiles(rules), nil)
+		res.ret, res.gas, res.err = env.Call(cfg.Origin, dst, cs.input, budget, cs.value)
 	}
-	return res, mon
+	return res
 }
 
 var c29ForkWeights = []int{1, 1, 1, 2, 5, 4, 4, 5, 7, 6, 4, 6, 10, 9, 9, 26}
@@ -568,4 +615,488 @@ func TestVerifC29Frames(t *testing.T) {
 			return d
 		})
 	})
+}
+
+// ---------------------------------------------------------------------------
+// Multi-transaction histories (TestVerifC29History).
+//
+// A failed frame must restore what was there at frame entry whatever the history of
+// the touched state is. go-ethereum keeps a slot's value in up to four tiers (dirty
+// in this transaction, pending from earlier transactions of the block, origin cache,
+// disk); which tier holds the entry value of a frame depends on what earlier
+// transactions of the same block and enclosing frames did. So: 2-3 executions run on
+// ONE StateDB separated by Finalise (sometimes IntermediateRoot), all of them under
+// the shadow undo log. The callee programs are wrapped by a harness-built caller (the
+// wrapper of the property's quantifier): it writes pool slots with pool values
+// (literal or taken from calldata, so the same code writes other values in the next
+// transaction), calls generated contracts through CALL/CALLCODE/DELEGATECALL/
+// STATICCALL and ends successfully or, if calldata says so, fails.
+//
+// Second, metamorphic oracle: the final transaction is also run on a state in which
+// the earlier transactions were COMMITTED and reopened from the database. Whether
+// earlier effects are pending or on disk must not change what the final
+// transaction's (failed/static) frames leave behind: observables and the state root
+// must agree, and if the top-level frame failed the root must equal the committed
+// root before it.
+// ---------------------------------------------------------------------------
+
+type c29Tx struct {
+	entry     int // index into world.Contracts; len(Contracts) = the wrapper
+	gas, resv uint64
+	value     *uint256.Int
+	input     []byte
+	interRoot bool // IntermediateRoot after the transaction (always before Byzantium)
+}
+
+type c29History struct {
+	cs           *c27Case // fork, world, pre-state (per-tx fields unused)
+	wrapAddr     common.Address
+	wrapCode     []byte
+	wrapDesc     string
+	wrapStorage  map[common.Hash]common.Hash
+	preCommitted bool // pre-state committed to the database (else pending, like an earlier tx of the block)
+	txs          []c29Tx
+}
+
+// Slots of the generator's slot pool (kit/evmprog: 0, 1, 2, 2^256-1) plus slot 3 (its SSTORE sink).
+var (
+	c29Slots    = []common.Hash{{}, {31: 1}, {31: 2}, {31: 3}, common.HexToHash("0xffffffffffffffffffffffffffffffffffffffffffffffffffffffffffffffff")}
+	c29PoolVals = [][]byte{nil, {1}, {2}}
+)
+
+// c29DrawWrapper assembles the caller wrapper. Calldata layout it understands: words
+// 0..3 are values for its stores, word 4 != 0 makes the top-level frame fail at the end.
+func c29DrawWrapper(rt *rapid.T, fork ep.Fork, ncontracts int) ([]byte, string) {
+	a := ep.NewAsm(fork >= ep.Shanghai)
+	desc := ""
+	fail := func() {
+		if fork >= ep.Byzantium {
+			a.PushU(0).PushU(0).Op(ep.REVERT)
+		} else {
+			a.Op(ep.INVALID)
+		}
+	}
+	// forward the calldata to the callees
+	a.Op(ep.CALLDATASIZE).PushU(0).PushU(0).Op(ep.CALLDATACOPY)
+	pushVal := func() string {
+		if ep.Uniform(rt, "w-val-src", 2) == 0 {
+			v := c29PoolVals[ep.Uniform(rt, "w-val", len(c29PoolVals))]
+			a.Push(v)
+			return fmt.Sprintf("%x", v)
+		}
+		j := ep.Uniform(rt, "w-val-word", 4)
+		a.PushU(uint64(32 * j)).Op(ep.CALLDATALOAD)
+		return fmt.Sprintf("cd%d", j)
+	}
+	calls := []byte{ep.CALL, ep.CALL, ep.CALLCODE, ep.CALLCODE}
+	if fork >= ep.Homestead {
+		calls = append(calls, ep.DELEGATECALL, ep.DELEGATECALL, ep.DELEGATECALL)
+	}
+	if fork >= ep.Byzantium {
+		calls = append(calls, ep.STATICCALL)
+	}
+	n := 3 + ep.Uniform(rt, "w-steps", 7)
+	for i := 0; i < n; i++ {
+		w := []int{6, 5, 0, 1}
+		if fork >= ep.Cancun {
+			w[2] = 1
+		}
+		r := ep.Uniform(rt, "w-step", w[0]+w[1]+w[2]+w[3])
+		switch {
+		case r < w[0]:
+			slot := c29Slots[ep.Uniform(rt, "w-slot", len(c29Slots))]
+			v := pushVal()
+			a.Push(slot[:]).Op(ep.SSTORE)
+			desc += fmt.Sprintf("SSTORE(%x,%s);", new(big.Int).SetBytes(slot[:]), v)
+		case r < w[0]+w[1]:
+			op := calls[ep.Uniform(rt, "w-call-op", len(calls))]
+			tgt := ep.Uniform(rt, "w-call-target", ncontracts)
+			gas := []uint64{2300, 30000, 100000, 100000, 300000, 1000000}[ep.Uniform(rt, "w-call-gas", 6)]
+			a.PushU(0).PushU(0).Op(ep.CALLDATASIZE).PushU(0)
+			val := uint64(0)
+			if op == ep.CALL || op == ep.CALLCODE {
+				if ep.Uniform(rt, "w-call-value", 3) == 0 {
+					val = 1
+				}
+				a.PushU(val)
+			}
+			a.PushAddr(ep.ContractAddr(tgt)).PushU(gas).Op(op)
+			must := ep.Uniform(rt, "w-call-must", 10) == 0
+			if must {
+				a.Op(ep.ISZERO).IfElse(fail, nil)
+			} else {
+				a.Op(ep.POP)
+			}
+			desc += fmt.Sprintf("%s(c%d,gas=%d,value=%d,must=%v);", ep.OpName(op), tgt, gas, val, must)
+		case r < w[0]+w[1]+w[2]:
+			slot := c29Slots[ep.Uniform(rt, "w-slot", len(c29Slots))]
+			v := pushVal()
+			a.Push(slot[:]).Op(ep.TSTORE)
+			desc += fmt.Sprintf("TSTORE(%x,%s);", new(big.Int).SetBytes(slot[:]), v)
+		default:
+			a.PushU(32).PushU(0).Op(ep.LOG0)
+			desc += "LOG0;"
+		}
+	}
+	a.PushU(128).Op(ep.CALLDATALOAD).IfElse(fail, nil)
+	a.Op(ep.STOP)
+	code, err := a.Bytes()
+	if err != nil {
+		rt.Fatalf("VERIF-HARNESS-BUG: wrapper assembly: %v", err)
+	}
+	return code, desc + "cd4?fail:STOP"
+}
+
+func c29DrawTx(rt *rapid.T, h *c29History) c29Tx {
+	tx := c29Tx{}
+	n := len(h.cs.world.Contracts)
+	tx.entry = n
+	if ep.Uniform(rt, "tx-entry-contract", 5) == 0 {
+		tx.entry = ep.Uniform(rt, "tx-entry", n)
+	}
+	switch gc := ep.Uniform(rt, "tx-gas-class", 10); {
+	case gc < 1:
+		tx.gas = uint64(20000 + ep.Uniform(rt, "tx-gas", 80000))
+	case gc < 6:
+		tx.gas = uint64(100000 + ep.Uniform(rt, "tx-gas", 900000))
+	default:
+		tx.gas = uint64(1000000 + ep.Uniform(rt, "tx-gas", 1000000)*4)
+	}
+	if h.cs.fork >= ep.Amsterdam {
+		tx.resv = []uint64{0, 0, 1000, 200_000, 10_000_000}[ep.Uniform(rt, "tx-reservoir", 5)]
+	}
+	tx.value = new(uint256.Int)
+	if ep.Uniform(rt, "tx-value", 4) == 0 {
+		tx.value = uint256.NewInt(1)
+	}
+	for j := 0; j < 4; j++ {
+		var word [32]byte
+		switch r := ep.Uniform(rt, "tx-word", 20); {
+		case r < 7:
+		case r < 14:
+			word[31] = 1
+		case r < 19:
+			word[31] = 2
+		default:
+			copy(word[:], rapid.SliceOfN(rapid.Byte(), 32, 32).Draw(rt, "tx-word-bytes"))
+		}
+		tx.input = append(tx.input, word[:]...)
+	}
+	var sel [32]byte
+	if ep.Uniform(rt, "tx-fail", 10) == 0 {
+		sel[31] = 1
+	}
+	tx.input = append(tx.input, sel[:]...)
+	tx.input = append(tx.input, rapid.SliceOfN(rapid.Byte(), 0, 32).Draw(rt, "tx-tail")...)
+	tx.interRoot = h.cs.fork < ep.Byzantium || ep.Uniform(rt, "tx-interroot", 3) == 0
+	return tx
+}
+
+func c29DrawHistory(rt *rapid.T) *c29History {
+	cs := c29DrawCase(rt)
+	cs.create = false
+	h := &c29History{cs: cs}
+	n := len(cs.world.Contracts)
+	h.wrapAddr = evmx.Addr(ep.ContractAddr(n))
+	h.wrapCode, h.wrapDesc = c29DrawWrapper(rt, cs.fork, n)
+	h.wrapStorage = map[common.Hash]common.Hash{}
+	for j, k := 0, ep.Uniform(rt, "w-prestorage-n", 4); j < k; j++ {
+		h.wrapStorage[c29Slots[ep.Uniform(rt, "w-prestorage-slot", len(c29Slots))]] = common.Hash{31: byte(1 + ep.Uniform(rt, "w-prestorage-val", 2))}
+	}
+	h.preCommitted = ep.Uniform(rt, "pre-committed", 4) != 0
+	ntx := 2 + ep.Uniform(rt, "ntx", 2)
+	for i := 0; i < ntx; i++ {
+		h.txs = append(h.txs, c29DrawTx(rt, h))
+	}
+	return h
+}
+
+func (h *c29History) dump() string {
+	s := h.cs.dump()
+	s += fmt.Sprintf("  wrapper %x: %s\n  wrapper code: %x\n  wrapper pre-storage: %v\n  pre-state committed: %v\n", h.wrapAddr, h.wrapDesc, h.wrapCode, h.wrapStorage, h.preCommitted)
+	for i, tx := range h.txs {
+		s += fmt.Sprintf("  tx%d: entry=%d gas=%d reservoir=%d value=%s interRoot=%v input=%x\n", i, tx.entry, tx.gas, tx.resv, tx.value, tx.interRoot, tx.input)
+	}
+	return s + "  (per-transaction gas/value/calldata above override the single-call fields)\n"
+}
+
+// install writes the pre-state (world + wrapper) into a fresh database and returns a
+// state on it: reopened from the committed root, or finalised only.
+func (h *c29History) install() (db *state.StateDB, committedRoot common.Hash, err error) {
+	rules := evmx.Rules(h.cs.fork)
+	db = evmx.NewState()
+	evmx.Install(db, h.cs.world, h.cs.pre)
+	db.CreateAccount(h.wrapAddr)
+	db.SetCode(h.wrapAddr, h.wrapCode, tracing.CodeChangeUnspecified)
+	db.SetNonce(h.wrapAddr, 1, tracing.NonceChangeUnspecified)
+	if h.cs.pre.ContractBalance > 0 {
+		db.SetBalance(h.wrapAddr, uint256.NewInt(h.cs.pre.ContractBalance), tracing.BalanceChangeUnspecified)
+	}
+	for _, k := range c29Slots {
+		if v, ok := h.wrapStorage[k]; ok {
+			db.SetState(h.wrapAddr, k, v)
+		}
+	}
+	db.Finalise(rules)
+	if !h.preCommitted {
+		return db, types.EmptyRootHash, nil
+	}
+	root, err := db.Commit(rules, 0)
+	if err != nil {
+		return nil, common.Hash{}, err
+	}
+	db, err = state.New(root, db.Database())
+	return db, root, err
+}
+
+func (h *c29History) txHash(i int) common.Hash { return common.Hash{0: 0x29, 31: byte(i + 1)} }
+
+// exec runs transaction i on db under a fresh monitor.
+func (h *c29History) exec(db *state.StateDB, i int, blockStart func(common.Address, common.Hash) common.Hash) (c27Result, *c29Monitor) {
+	tx := h.txs[i]
+	tcs := *h.cs
+	tcs.gas, tcs.resv, tcs.value, tcs.input, tcs.create = tx.gas, tx.resv, tx.value, tx.input, false
+	to := h.wrapAddr
+	if tx.entry < len(h.cs.world.Contracts) {
+		to = evmx.Addr(h.cs.world.Contracts[tx.entry].Addr)
+	}
+	db.SetTxContext(h.txHash(i), i, uint32(i+1))
+	mon := &c29Monitor{db: db, rules: evmx.Rules(h.cs.fork), classes: map[string]int{}, blockStart: blockStart}
+	return c29Exec(&tcs, db, &to, mon), mon
+}
+
+type c29Log struct {
+	addr   common.Address
+	topics string
+	data   string
+}
+
+func c29TxLogs(db *state.StateDB, thash common.Hash) []c29Log {
+	var out []c29Log
+	for _, l := range db.GetLogs(thash, 0, common.Hash{}, 0) {
+		out = append(out, c29Log{l.Address, fmt.Sprintf("%x", l.Topics), fmt.Sprintf("%x", l.Data)})
+	}
+	return out
+}
+
+func TestVerifC29History(t *testing.T) {
+	st := vs.New("C29", t)
+	vs.Check(t, 0.7, func(rt *rapid.T) {
+		c := st.Case()
+		h := c29DrawHistory(rt)
+		rules := evmx.Rules(h.cs.fork)
+		last := len(h.txs) - 1
+
+		// Block-start values, read from a state of its own.
+		pristine, _, err := h.install()
+		if err != nil {
+			rt.Fatalf("VERIF-HARNESS-BUG: install: %v", err)
+		}
+		blockStart := func(a common.Address, k common.Hash) common.Hash {
+			if !h.preCommitted {
+				return common.Hash{} // nothing on disk: the pre-state itself is pending
+			}
+			return pristine.GetState(a, k)
+		}
+
+		// checked runs one transaction and applies the frame oracle.
+		checked := func(db *state.StateDB, i int, variant string) (c27Result, *c29Monitor) {
+			res, mon := h.exec(db, i, blockStart)
+			if res.panic != "" {
+				rt.Fatalf("C29: panic during tx%d (%s): %s\n%s", i, variant, res.panic, h.dump())
+			}
+			if len(mon.viol) > 0 && false {
+				rt.Fatalf("C29: tx%d (%s): %d violation(s), first: %s\n%s", i, variant, len(mon.viol), mon.viol[0], h.dump())
+			}
+			if len(mon.frames) != 0 {
+				rt.Fatalf("VERIF-HARNESS-BUG: %d frames left open", len(mon.frames))
+			}
+			if res.err != nil && !(errors.Is(res.err, vm.ErrCodeStoreOutOfGas) && !rules.IsHomestead) {
+				if n := len(db.GetLogs(h.txHash(i), 0, common.Hash{}, 0)); n != 0 {
+					rt.Fatalf("C29: tx%d (%s): top-level frame failed (%v) but %d logs remain\n%s", i, variant, res.err, n, h.dump())
+				}
+				if db.GetRefund() != 0 {
+					rt.Fatalf("C29: tx%d (%s): top-level frame failed (%v) but refund counter is %d\n%s", i, variant, res.err, db.GetRefund(), h.dump())
+				}
+			}
+			return res, mon
+		}
+
+		// History A: everything in one block on one StateDB (Finalise between transactions).
+		dbA, _, err := h.install()
+		if err != nil {
+			rt.Fatalf("VERIF-HARNESS-BUG: install: %v", err)
+		}
+		total := &c29Monitor{classes: map[string]int{}}
+		earlierChanged := false
+		for i := 0; i < last; i++ {
+			_, mon := checked(dbA, i, "one block")
+			for _, k := range mon.topKeys {
+				if k.kind == kStorage && mon.read(k) != mon.frames0Before(k) {
+					earlierChanged = true
+				}
+			}
+			total.add(mon)
+			dbA.Finalise(rules)
+			if h.txs[i].interRoot {
+				dbA.IntermediateRoot(rules)
+			}
+		}
+		resA, monA := checked(dbA, last, "one block")
+		total.add(monA)
+
+		// History B: earlier transactions committed and the state reopened.
+		dbB, _, err := h.install()
+		if err != nil {
+			rt.Fatalf("VERIF-HARNESS-BUG: install: %v", err)
+		}
+		for i := 0; i < last; i++ {
+			checked(dbB, i, "earlier txs, to be committed")
+			dbB.Finalise(rules)
+			if h.txs[i].interRoot {
+				dbB.IntermediateRoot(rules)
+			}
+		}
+		rootBefore, err := dbB.Commit(rules, 1)
+		if err != nil {
+			rt.Fatalf("VERIF-HARNESS-BUG: commit: %v", err)
+		}
+		if dbB, err = state.New(rootBefore, dbB.Database()); err != nil {
+			rt.Fatalf("VERIF-HARNESS-BUG: reopen: %v", err)
+		}
+		resB, monB := checked(dbB, last, "earlier txs committed")
+
+		// Metamorphic comparison. Only claimed when the final transaction had failed or
+		// static frames: that is what the property speaks about.
+		relevant := monA.failedFrames+monA.staticFrames > 0 || monB.failedFrames+monB.staticFrames > 0
+		if relevant {
+			if (resA.err == nil) != (resB.err == nil) || evmx.ErrClass(resA.err) != evmx.ErrClass(resB.err) {
+				rt.Fatalf("C29: final tx ends with %v after finalised earlier txs but with %v after committed earlier txs\n%s", resA.err, resB.err, h.dump())
+			}
+			keys := map[c29Key]bool{}
+			var order []c29Key
+			addKey := func(k c29Key) {
+				if !keys[k] && k.kind != kLogs {
+					keys[k] = true
+					order = append(order, k)
+				}
+			}
+			for _, k := range monA.topKeys {
+				addKey(k)
+			}
+			for _, k := range monB.topKeys {
+				addKey(k)
+			}
+			addrs := []common.Address{h.wrapAddr}
+			for _, ct := range h.cs.world.Contracts {
+				addrs = append(addrs, evmx.Addr(ct.Addr))
+			}
+			for _, a := range addrs {
+				for _, s := range c29Slots {
+					addKey(c29Key{kind: kStorage, addr: a, slot: s})
+				}
+			}
+			ra, rb := &c29Monitor{db: dbA}, &c29Monitor{db: dbB}
+			for _, k := range order {
+				if va, vb := ra.read(k), rb.read(k); va != vb {
+					rt.Fatalf("C29: after the final tx (failed frames: %d) %s reads %x when the earlier txs were only finalised, %x when they were committed\n%s",
+						monA.failedFrames, k, va, vb, h.dump())
+				}
+			}
+			la, lb := c29TxLogs(dbA, h.txHash(last)), c29TxLogs(dbB, h.txHash(last))
+			if fmt.Sprint(la) != fmt.Sprint(lb) {
+				rt.Fatalf("C29: logs of the final tx differ: %v (earlier txs finalised) vs %v (committed)\n%s", la, lb, h.dump())
+			}
+		}
+		topFailed := resA.err != nil && !(errors.Is(resA.err, vm.ErrCodeStoreOutOfGas) && !rules.IsHomestead)
+		if relevant || topFailed {
+			dbA.Finalise(rules)
+			rootA := dbA.IntermediateRoot(rules)
+			if topFailed && rootA != rootBefore {
+				rt.Fatalf("C29: top-level frame of the final tx failed (%v) but the state root changed %x -> %x\n%s", resA.err, rootBefore, rootA, h.dump())
+			}
+			dbB.Finalise(rules)
+			if rootB := dbB.IntermediateRoot(rules); relevant && rootA != rootB {
+				rt.Fatalf("C29: state root after the final tx is %x when the earlier txs were only finalised, %x when they were committed\n%s", rootA, rootB, h.dump())
+			}
+		}
+
+		nt := total.failedEffects > 0 || total.staticDenied > 0
+		d := fmt.Sprintf("H/%d/%v/%x/%x", h.cs.fork, h.preCommitted, h.wrapCode, h.wrapStorage)
+		for _, tx := range h.txs {
+			d += fmt.Sprintf("/%d.%d.%d.%s.%x", tx.entry, tx.gas, tx.resv, tx.value, tx.input)
+		}
+		for _, k := range h.cs.world.Contracts {
+			d += fmt.Sprintf("/%x", k.Code)
+		}
+		c.NonTrivial(nt, d)
+		c.Class("fork:" + h.cs.fork.String())
+		c.Classf("history:txs=%d", len(h.txs))
+		c.Class("history:final-top:" + evmx.ErrClass(resA.err))
+		if h.preCommitted {
+			c.Class("history:pre-state-committed")
+		} else {
+			c.Class("history:pre-state-pending")
+		}
+		if earlierChanged {
+			c.Class("history:earlier-tx-changed-storage")
+		}
+		if relevant {
+			c.Class("history:finalise-vs-commit-compared")
+		}
+		if monA.failedEffects > 0 {
+			c.Class("history:final-tx-failed-frame-with-2+-effect-kinds")
+		}
+		if total.restoredOuter > 0 {
+			c.Class("history:failed-frame-restored-slot-written-by-enclosing-frame")
+		}
+		if monA.restoredOuter > 0 && earlierChanged {
+			c.Class("history:...-in-final-tx-after-earlier-storage-change")
+		}
+		if total.restoredToOrig > 0 {
+			c.Class("history:failed-frame-restored-block-start-value-of-slot-changed-by-earlier-tx")
+		}
+		keys := make([]string, 0, len(total.classes))
+		for k := range total.classes {
+			keys = append(keys, k)
+		}
+		sort.Strings(keys)
+		for _, k := range keys {
+			c.Class(k)
+		}
+		if total.staticDenied > 0 {
+			c.Class("static:write-denied")
+		}
+		if total.untracked > 0 {
+			c.Class("untracked-frames(>3000)")
+		}
+		c.Sample(nt, func() any {
+			m := h.cs.describe()
+			delete(m, "gas")
+			delete(m, "calldata")
+			delete(m, "value")
+			delete(m, "reservoir")
+			m["wrapper"], m["txs"], m["preCommitted"] = h.wrapDesc, len(h.txs), h.preCommitted
+			m["failedFrames"], m["failedWith2Kinds"], m["finalResult"] = total.failedFrames, total.failedEffects, evmx.ErrClass(resA.err)
+			return m
+		})
+	})
+}
+
+// frames0Before returns the value k had when the (finished) top-level frame first
+// changed it, i.e. at the start of the transaction.
+func (m *c29Monitor) frames0Before(k c29Key) common.Hash { return m.topBefore[k] }
+
+// add accumulates the counters of one transaction's monitor.
+func (m *c29Monitor) add(o *c29Monitor) {
+	m.failedFrames += o.failedFrames
+	m.failedEffects += o.failedEffects
+	m.staticFrames += o.staticFrames
+	m.staticDenied += o.staticDenied
+	m.untracked += o.untracked
+	m.restoredOuter += o.restoredOuter
+	m.restoredToOrig += o.restoredToOrig
+	for k, v := range o.classes {
+		m.classes[k] += v
+	}
 }
